@@ -1,4 +1,5 @@
 import Bxh.Proofs.SyncLemmas
+import Bxh.Proofs.OrderLemmas
 /-!
 # C20 — ordering delivers each height once, in order (property theorems)
 
@@ -42,5 +43,31 @@ theorem C20_ranges_refuse (b e f : Nat) (h : e < b) : calcRange b e f = none := 
 
 /-- non-vacuity / shape witness (the `fetch+1` bound is tight: begin a multiple of fetch) -/
 example : calcRange 10 23 5 = some [⟨10, 15⟩, ⟨16, 20⟩, ⟨21, 23⟩] := by decide
+
+open Bxh.Order.Apply in
+/-- **each height once, in order, across faults and restarts** (safety half): from a node whose minted queue
+continues its ledger, whatever raft hands over (any entries: duplicates, replays, gaps, stale heights), whenever
+snapshots are taken, heights reported and the process crashes and restarts, the executor is handed exactly the
+heights `ledger+1, ledger+2, …` — consecutive, ascending, none twice -/
+theorem C20_delivery_consecutive (n : Order.Node) (l0 : Nat) (ops : List Order.Apply.Op) (h : Good n l0) :
+    let s := run { n := n, ledger := l0 } ops
+    s.delivered = List.range' (l0 + 1) (s.ledger - l0) ∧ l0 ≤ s.ledger := by
+  have := run_inv l0 ops { n := n, ledger := l0 } ⟨h, Nat.le_refl _, by simp⟩
+  exact ⟨this.2.2, this.2.1⟩
+
+/-- non-vacuity: entries for heights 1,2 arrive, one is executed, the node crashes before reporting, raft re-delivers
+both, and the executor is still handed 2 next (1 is skipped as already executed) -/
+example :
+    let es : List Order.Entry := [⟨1, some 1⟩, ⟨2, some 2⟩]
+    (Order.Apply.run { n := {}, ledger := 0 } [.ready es, .execute, .restart, .execute, .execute]).delivered = [1, 2] := by decide
+
+/-- the recorded finding (known_findings.json, C20 snapshot ahead of execution) on the model: the other half of the
+clause — "no entry that was not executed is skipped" — fails.  Entries for heights 1 and 2 are minted, a snapshot is
+taken at the applied index before the executor took anything, the process restarts: raft re-delivers nothing, the
+entry for height 3 is skipped for ever, the executor is handed nothing. -/
+theorem C20_snapshot_ahead_skips_unexecuted :
+    let es : List Order.Entry := [⟨1, some 1⟩, ⟨2, some 2⟩]
+    let s := Order.Apply.run { n := {}, ledger := 0 } [.ready es, .snapshot, .restart, .ready [⟨3, some 3⟩], .execute, .execute]
+    s.delivered = [] ∧ s.ledger = 0 := by decide
 
 end Bxh.Props.C20
